@@ -34,10 +34,13 @@ def gen_file_items(rng, names_left, depth):
     elif r < 0.7:
       items.append(['import', rng.choice(c16.MODULES)])
     elif names_left and depth < 4:
-      items.append(['include', names_left.pop()])
+      name = names_left.pop()
+      items.append(['include', name])
       if rng.random() < 0.7:
         sel, p = rng.choice(BINDS)
         items.append(['bind', '', sel, p, str(rng.randint(100, 199))])
+      if rng.random() < 0.3:      # the same file included again by the same file: it is applied again, at that point
+        items.append(['include', name])
     else:
       sel, p = rng.choice(BINDS)
       items.append(['bind', '', sel, p, str(rng.randint(0, 99))])
@@ -132,7 +135,16 @@ class IncludeEngine(Engine):
     elif r < 0.8:
       calls = [['text', "f.a = 1\ninclude '%s'\nf.b = 2\n" % entry, sk]]
     else:
-      calls = [['fab', [entry], ['f.a = 77', 'g.a = 78'], rng.choice([None, True, False]), sk]]
+      flist = [entry]
+      others = [n for n in contents if n != entry and n != missing]
+      x = rng.random()
+      if x < 0.3 and others:
+        flist = [entry, rng.choice(others), entry]        # a file named twice is applied twice, in the order given
+      elif x < 0.45:
+        flist = [entry, entry]
+      elif x < 0.6 and others:
+        flist = [rng.choice(others), entry]
+      calls = [['fab', flist, ['f.a = 77', 'g.a = 78'], rng.choice([None, True, False]), sk]]
     if rng.random() < 0.35 and calls[0][0] != 'fab':
       calls = calls + [copy.deepcopy(calls[0])]      # parse the same thing again (after a failure: same failure)
     if nreaders == 1 and not any(files):
